@@ -99,7 +99,11 @@ func stallOnce(it stallItem) stallRes {
 	}
 	// one request for the sender to get held on
 	miss("first")
-	time.Sleep(30 * time.Millisecond)
+	// wait until the sender has taken it out of the queue (and is now held inside Send)
+	for dl := time.Now().Add(3 * time.Second); m.VerifPending() > 0 && time.Now().Before(dl); {
+		time.Sleep(time.Millisecond)
+	}
+	time.Sleep(20 * time.Millisecond)
 	if it.RecvErr {
 		st.recvCh <- recvItem{err: fmt.Errorf("fake: recv failed")}
 		dl := time.Now().Add(2 * time.Second)
